@@ -461,6 +461,25 @@ func ReplayCase(cs Case) string {
 }
 
 func Replay(r *evid.Run, raw json.RawMessage) {
+	var tw struct {
+		Typed *TypedCase `json:"typed"`
+	}
+	if json.Unmarshal(raw, &tw) == nil && tw.Typed != nil {
+		tc := tw.Typed
+		r.Evaluations.Add(1)
+		r.Nontrivial.Add(2)
+		r.Sample(tc)
+		if tc.Target >= len(typedTargets) || tc.Opts >= len(typedOptSets) {
+			return
+		}
+		if msg := typedOne(tc.Vals, tc.Sep, tc.Sched, tc.Target, tc.Opts); msg != "" {
+			fmt.Println("replay fails:", msg)
+			r.Violation("replay", msg, tc, nil)
+		} else {
+			fmt.Println("replay passes")
+		}
+		return
+	}
 	var cs Case
 	if json.Unmarshal(raw, &cs) != nil {
 		return
@@ -589,6 +608,7 @@ func Run(r *evid.Run) {
 	// the targeted families run first, the large exhaustive enumeration last (an internal deadline then only cuts the latter short)
 	boundarySweeps(r)
 	unmarshalRoutes(r)
+	typedRoutes(r)
 	SparsePointers(r, "c05")
 	surrogateSplits(r)
 	views.ForAll(r, vs, func(w *enum.Worker, v views.View) func([]byte) {
